@@ -16,7 +16,7 @@ class TranslateError(Exception):
 KW = {'end', 'at', 'from', 'with', 'in', 'do', 'then', 'else', 'if', 'fun', 'let', 'have', 'show', 'open', 'where',
       'by', 'section', 'namespace', 'variable', 'instance', 'class', 'structure', 'deriving', 'mutual', 'theorem',
       'def', 'local', 'prefix', 'infix', 'notation', 'macro', 'syntax', 'match', 'return', 'this', 'Type', 'Prop',
-      'Sort', 'max', 'min', 'abs', 'cast', 'id', 'pure'}
+      'Sort', 'max', 'min', 'abs', 'cast', 'id', 'pure', 'zero', 'succ'}
 IGNORED_CALLS = ('_mi_warning_message', '_mi_error_message', '_mi_verbose_message', '_mi_trace_message')
 
 def ind(s):
@@ -394,6 +394,8 @@ class Fn:
             b = strip(l['inner'][0])
             if b['kind'] == 'CallExpr':      # *f() = v  (errno)
                 return True
+            if b['kind'] == 'DeclRefExpr' and b['referencedDecl']['name'] not in self.pnames:
+                return True                  # *local = v
         return False
 
     def find_eff(self, n):
@@ -837,7 +839,10 @@ class Fn:
             sz = tu.pointee_size(tu.clean(dq(b)))
             addr = f'(({self.expr(b)} + {self.expr(i)} * {sz}) % {2**64})'
             return f'let eff_out := eff_out ++ [("store{sz*8}", [{addr}, {val}])]\n'
-        b = strip(l['inner'][0])   # *f() = v
+        b = strip(l['inner'][0])   # *f() = v   or   *local = v
+        if b['kind'] == 'DeclRefExpr':
+            sz = tu.pointee_size(tu.clean(dq(l['inner'][0])))
+            return f'let eff_out := eff_out ++ [("store{sz*8}", [{self.expr(l["inner"][0])}, {val}])]\n'
         fn = self.callee_name(b)
         if tu.bits(dq(s))[0] == 's':
             val = f'(Int.toNat (({val}) % {2**32}))'
